@@ -56,6 +56,20 @@ func c08One(ctx *Ctx, i int, rng *rand.Rand, allowStall bool) {
 		maxh = []int{0, 0, 3}[rng.Intn(3)]
 		ctx.Count("directed-fallback")
 	}
+	// second directed family: a pool maximum below the legacy default of three, plenty of eligible
+	// hosts, and a legacy vipnode_client request that names no count
+	legacyCap := (i/2)%4 == 1 && !allowStall
+	if legacyCap {
+		maxh = 1 + rng.Intn(2)
+		ctx.Count("directed-legacy-default-under-cap")
+	}
+	// third directed family: the requester's last check-in saw a peered host whose own check-in
+	// was late; the host has checked in since, and the request comes a while after
+	agedPeer := (i/2)%8 == 2 && !allowStall
+	if agedPeer {
+		maxh = []int{0, 0, 3}[rng.Intn(3)]
+		ctx.Count("directed-aged-peer")
+	}
 	w := newWorld(worldCfg{Drv: drv, Price: "1000", IntervalNs: 60e9, Settle: true, MaxHosts: maxh})
 	defer w.Close()
 	w.stallFor = 7 * time.Second
@@ -65,7 +79,7 @@ func c08One(ctx *Ctx, i int, rng *rand.Rand, allowStall bool) {
 	w.aliasAll()
 	desc := c08Desc{MaxHosts: maxh, Hosts: map[string]string{}}
 	nh := rng.Intn(len(c08Hosts) + 1)
-	if directed {
+	if directed || legacyCap || agedPeer {
 		nh = len(c08Hosts)
 	}
 	hosts := append([]string{}, c08Hosts...)
@@ -76,6 +90,11 @@ func c08One(ctx *Ctx, i int, rng *rand.Rand, allowStall bool) {
 	for _, h := range hosts {
 		kindOf[h] = []string{"geth", "geth", "parity"}[rng.Intn(3)]
 		stale[h] = rng.Intn(5) == 0
+	}
+	if legacyCap || agedPeer {
+		for _, h := range hosts {
+			kindOf[h], stale[h] = dirKind, false
+		}
 	}
 	if directed {
 		nOther := 1 + rng.Intn(2)
@@ -108,10 +127,10 @@ func c08One(ctx *Ctx, i int, rng *rand.Rand, allowStall bool) {
 	self := "c1"
 	selfKind := []string{"geth", "parity"}[rng.Intn(2)]
 	registered := rng.Intn(12) != 0
-	if directed {
+	if directed || legacyCap || agedPeer {
 		selfKind, registered = dirKind, true
 	}
-	if !directed && rng.Intn(8) == 0 && nh > 0 { // a host asking for peers
+	if !directed && !legacyCap && !agedPeer && rng.Intn(8) == 0 && nh > 0 { // a host asking for peers
 		self = hosts[0]
 	} else if registered {
 		if _, err := w.connect(self, false, selfKind, "", ""); err != nil {
@@ -121,16 +140,38 @@ func c08One(ctx *Ctx, i int, rng *rand.Rand, allowStall bool) {
 	// already-peered hosts
 	var peered []string
 	for _, h := range hosts {
-		if h != self && rng.Intn(4) == 0 && !directed {
+		if h != self && rng.Intn(4) == 0 && !directed && !legacyCap && !agedPeer {
+			peered = append(peered, h)
+		}
+		if agedPeer && len(peered) < 1+i%2 {
 			peered = append(peered, h)
 		}
 		if directed && kindOf[h] == dirOther {
 			peered = append(peered, h)
 		}
 	}
+	if agedPeer {
+		// the hosts' check-ins are late when the requester reports its peers
+		shiftTime(w.st.Store, time.Duration(95+rng.Intn(20))*time.Second)
+	}
 	if (registered || self != "c1") && len(peered) > 0 {
 		if _, err := w.update(self, peered, 1); err != nil {
 			fatal("update: %v", err)
+		}
+		if agedPeer {
+			// every host checks in (the peered ones report the requester), then a while passes
+			for _, h := range hosts {
+				var ps []string
+				for _, p := range peered {
+					if p == h {
+						ps = []string{self}
+					}
+				}
+				if _, err := w.update(h, ps, 1); err != nil {
+					fatal("host update: %v", err)
+				}
+			}
+			shiftTime(w.st.Store, time.Duration(30+rng.Intn(25))*time.Second)
 		}
 	} else {
 		peered = nil
@@ -139,7 +180,7 @@ func c08One(ctx *Ctx, i int, rng *rand.Rand, allowStall bool) {
 	connected := map[string]bool{}
 	for _, h := range hosts {
 		connected[h] = true
-		if rng.Intn(5) == 0 && !directed {
+		if rng.Intn(5) == 0 && !directed && !legacyCap && !agedPeer {
 			w.closeConn(h, 0)
 			connected[h] = false
 		}
@@ -153,6 +194,9 @@ func c08One(ctx *Ctx, i int, rng *rand.Rand, allowStall bool) {
 			outcome[h] = "err"
 		case r == 1 && allowStall:
 			outcome[h] = "stall"
+		}
+		if legacyCap || agedPeer {
+			outcome[h] = "ack"
 		}
 		if directed {
 			outcome[h] = "ack"
@@ -212,6 +256,12 @@ func c08One(ctx *Ctx, i int, rng *rand.Rand, allowStall bool) {
 	via := "vipnode_peer"
 	if self == "c1" && rng.Intn(5) == 0 {
 		via = "vipnode_client"
+	}
+	if legacyCap {
+		num, kind, via = []int{0, 0, -2}[rng.Intn(3)], []string{dirKind, ""}[rng.Intn(2)], "vipnode_client"
+	}
+	if agedPeer {
+		num, kind, via = 1+rng.Intn(3), []string{dirKind, ""}[rng.Intn(2)], []string{"vipnode_peer", "vipnode_peer", "vipnode_client"}[rng.Intn(3)]
 	}
 	if directed {
 		num, kind, via = 1+rng.Intn(2), []string{dirKind, dirKind, ""}[rng.Intn(3)], "vipnode_peer"
@@ -324,7 +374,13 @@ func c08One(ctx *Ctx, i int, rng *rand.Rand, allowStall bool) {
 	for _, r := range replyNames {
 		replyIDs = append(replyIDs, w.t.id(r))
 	}
-	if ps, perr := w.st.NodePeers(store.NodeID(nodeIDOf(self))); perr == nil {
+	if agedPeer {
+		// nothing was pruned in this family (every host was active at the requester's check-in):
+		// the peers are the hosts it reported, whatever the store says now
+		for _, p := range peered {
+			peerIDs = append(peerIDs, w.t.id(p))
+		}
+	} else if ps, perr := w.st.NodePeers(store.NodeID(nodeIDOf(self))); perr == nil {
 		for _, p := range ps {
 			peerIDs = append(peerIDs, w.t.id(w.nameOf(string(p.ID), c08Hosts)))
 		}
@@ -396,6 +452,12 @@ func runC09(ctx *Ctx) {
 		}
 		if ctx.Want(n + 70 + drv) {
 			c09CloseWhileOwnRequestRuns(ctx, n+70+drv, drv)
+		}
+		if ctx.Want(n + 80 + drv) {
+			c09FailedReconnect(ctx, n+80+drv, drv, true)
+		}
+		if ctx.Want(n + 90 + drv) {
+			c09FailedReconnect(ctx, n+90+drv, drv, false)
 		}
 	}
 	forEachCase(ctx, n, func(i int, rng *rand.Rand) {
